@@ -1,6 +1,6 @@
 import DclabModel.Model.Filter
 import DclabModel.DriveUtil
-/-! Line-protocol driver for the filter model (C03); always the *fixed* diff rule.
+/-! Line-protocol driver for the filter model (C03); always the current revision (`Ver.f25`).
 
     new <n>                         fresh dataset with n events (clears columns and tables) → `ok`
     col <f> <v> …                   scalar feature f with its n values → `ok`
@@ -10,7 +10,7 @@ import DclabModel.DriveUtil
     set <f> <0|1> <v> | pop <f> <0|1> | polyset <id> <ax> <ay> <shape> <inv> | polyadd <id> |
     polyrm <id> | invalid <b> | enable <b> | limit <k> | manual <i> <b> | reset
                                     → `ok` | `err:key` | `err:value`
-    apply <f> …                     → `<out> all=<bits> box=<bits> poly=<bits> inv=<bits> ## <spec bits>`
+    apply <f> …                     → `<out> all=<bits> box=<bits> poly=<bits> inv=<bits> ## <spec bits | raise>`
    values: `nan`, `+inf`, `-inf`, `p/q`, `p`
 -/
 open DclabModel.Filter DclabModel.DriveUtil
@@ -45,14 +45,16 @@ def showOut : Out → String
   | .unmodelled => "unmodelled"
 
 def doOp (d : D) (op : Op) : D × String :=
-  let r := step true d.choice d.pip d.data d.sys op
+  let r := step .f25 d.choice d.pip d.data d.sys op
   match op with
   | .apply _ =>
-    let sp := spec d.choice d.pip d.data d.sys.cfg d.sys.reg d.sys.st.manual
+    let sp := match specApply d.choice d.pip d.data d.sys.cfg d.sys.reg d.sys.st.manual with
+      | some m => showBools m
+      | none => "raise"
     ({ d with sys := r.1 },
      showOut r.2 ++ " all=" ++ showBools r.1.st.aAll ++ " box=" ++ showBools r.1.st.aBox ++
      " poly=" ++ showBools r.1.st.aPoly ++ " inv=" ++ showBools r.1.st.aInv ++
-     " ## " ++ showBools sp)
+     " ## " ++ sp)
   | _ => ({ d with sys := r.1 }, showOut r.2)
 
 def handle (d : D) (line : String) : D × String :=
